@@ -302,8 +302,8 @@ def run(ctx):
     def post(ctx, rows, res, bindir):
         ctx.cov["input_distribution"] = _distribution(rows)
 
-    core.standard_check(ctx, harness_bin="c28", kind="harness-els", n_quick=6000, n_thorough=120000,
-                        extra_gen_args=["--e2e", "400" if thorough else "60"], nontrivial=nontrivial,
+    core.standard_check(ctx, harness_bin="c28", kind="harness-els", n_quick=6000, n_thorough=100000,
+                        extra_gen_args=["--e2e", "300" if thorough else "60"], nontrivial=nontrivial,
                         trusted=["Lean model of String::replace_range / is_char_boundary / len_utf8 / len_utf16 (validated on every case)",
                                  "LSP 3.17 position semantics as written in ErgVerif.C28.Spec (hand-written; cross-checked by "
                                  "C28_spec_roundtrip and C28_offset_mono)",
